@@ -432,3 +432,5 @@ def run(ctx):
     okr = any("a_dict['histograms']" in U(g.generators[0].iter) and not g.generators[0].ifs and "create_from_dict(item" in U(g.elt) for g in gens) and \
         _all_returns(cfdm, ("HistogramCollection(*histograms)",))
     ctx.check(okr, "C08.f", "HistogramCollection.from_dict", "every item of a_dict['histograms'] is rebuilt", "collection from_dict does not rebuild every member", cfdm.where)
+    # what the reader hands to the constructors is stored as given: the out-of-range counters of both histogram kinds (shared with C02.h)
+    ctx.borrow("C02", ("Histogram1D.__init__:missed-dtype", "HistogramND.__init__:missed-dtype"), "C08.c", floor=2)
